@@ -898,6 +898,15 @@ def _clone(m, st, fr, callee, args, dest_ty, term):
     return m.deref(st, args[0], 1)
 
 
+def _clone_from(m, st, fr, callee, args, dest_ty, term):
+    # contract of the provided method: `*self = source.clone()` (a value equal to the source)
+    a = args[0]
+    if a[0] != 'ref':
+        return ('unknown', 'clone_from on a non-reference')
+    m.sx.write_cell(st, a[1], a[2], m.deref(st, args[1], 1))
+    return UNIT
+
+
 def _default(m, st, fr, callee, args, dest_ty, term):
     targs = callee.get('targs', [])
     t = targs[0] if targs else None
@@ -1397,6 +1406,7 @@ MODELS = {
     'core::convert::Into::into': _into,
     'core::convert::From::from': _from,
     'core::clone::Clone::clone': _clone,
+    'core::clone::Clone::clone_from': _clone_from,
     'core::default::Default::default': _default,
     'core::ops::FnOnce::call_once': _fn_call,
     'core::ops::FnMut::call_mut': _fn_call,
